@@ -9,6 +9,7 @@ from typing import Dict, List, Optional, Set, Tuple
 
 from ..cfg import CFG, Node, assigned_names, cond_facts, def_value, facts_at, owner_node, reaching_defs
 from ..core import Ctx, RuleReport, rule
+from ..resolve import expand, facts_ex
 from ..src import AnalysisError, FuncInfo, dotted, norm, try_fold, walk_local
 
 SPEC = Path(__file__).resolve().parent.parent.parent / 'spec'
@@ -386,7 +387,8 @@ def r25(ctx: Ctx) -> RuleReport:
     main = ctx.repo.func('penman.__main__', 'main')
     # 1. argparse destinations
     dests: Dict[str, str] = {}
-    for n in walk_local(main.node):
+    mm = ctx.repo.module('penman.__main__')
+    for n in [x for f in mm.functions.values() for x in walk_local(f.node)]:
         if isinstance(n, ast.Call) and isinstance(n.func, ast.Attribute) and n.func.attr == 'add_argument':
             flags = [a.value for a in n.args if isinstance(a, ast.Constant) and isinstance(a.value, str)]
             dest = next((k.value.value for k in n.keywords if k.arg == 'dest' and isinstance(k.value, ast.Constant)), None)
@@ -428,7 +430,7 @@ def r25(ctx: Ctx) -> RuleReport:
                 if t.kind != 'func':
                     continue
                 fq = t.func.fq
-                facts = facts_at(cfg, IN, pm, call)
+                facts = facts_ex(ctx, fi, call)
                 guards_true = {f for f, pol in facts if pol and f.startswith(f'{optparam}[')}
                 guards_false = {f for f, pol in facts if not pol and f.startswith(f'{optparam}[')}
                 k = f'penman.__main__:{fn}: {fq.split(":")[1]} guarded by its option'
@@ -451,15 +453,16 @@ def r25(ctx: Ctx) -> RuleReport:
         for call, ts in ctx.cg.calls_in(fi):
             for t in ts:
                 if t.kind == 'func' and t.func.fq == 'penman.tree:Tree.reset_variables':
-                    a = call.args[0] if call.args else None
+                    a = expand(ctx, fi, call.args[0], call) if call.args else None
                     good = a is not None and norm(a) == f"{optparam}['make_variables']"
                     rep.add(f'penman.__main__:{fn}: reset_variables receives the --make-variables format', fi.loc(call),
                             'ok' if good else 'undecided', '' if good else f'receives {norm(a) if a else None}')
         for n in walk_local(fi.node):
-            if isinstance(n, ast.Assign) and isinstance(n.value, ast.Subscript) and isinstance(n.value.value, ast.Name) \
-                    and n.value.value.id == optparam and isinstance(n.targets[0], ast.Tuple):
-                okk, kname = try_fold(n.value.slice)
-                facts = facts_at(cfg, IN, pm, n)
+            nv = expand(ctx, fi, n.value, n) if isinstance(n, ast.Assign) else None
+            if isinstance(n, ast.Assign) and isinstance(nv, ast.Subscript) and isinstance(nv.value, ast.Name) \
+                    and nv.value.id == optparam and isinstance(n.targets[0], ast.Tuple):
+                okk, kname = try_fold(nv.slice)
+                facts = facts_ex(ctx, fi, n)
                 want = f"{optparam}['{kname}']"
                 good = (want, True) in facts
                 rep.add(f'penman.__main__:{fn}: key/kwargs unpacked from {want} under its own guard', fi.loc(n),
@@ -546,13 +549,22 @@ def r42(ctx: Ctx) -> RuleReport:
     else:
         srcs.append(a)
     good = bool(srcs)
+    FORMATTERS = ('penman.codec:PENMANCodec.format', 'penman.codec:PENMANCodec.format_triples')
+
+    def is_formatter_result(f: FuncInfo, v, depth=0) -> bool:
+        if not isinstance(v, ast.Call):
+            return False
+        ts = ctx.cg.resolve_call(v, f)
+        if any(t.kind == 'func' and t.func.fq in FORMATTERS for t in ts):
+            return True
+        hs = [t.func for t in ts if t.kind == 'func' and t.func.module.name == f.module.name]
+        if len(hs) == 1 and depth < 2:
+            h = hs[0]
+            rets = [n for n in walk_local(h.node) if isinstance(n, ast.Return)]
+            return bool(rets) and all(r.value is not None and is_formatter_result(h, expand(ctx, h, r.value, r), depth + 1) for r in rets)
+        return False
     for v in srcs:
-        ok = False
-        if isinstance(v, ast.Call):
-            ts = ctx.cg.resolve_call(v, fi)
-            ok = any(t.kind == 'func' and t.func.fq in ('penman.codec:PENMANCodec.format', 'penman.codec:PENMANCodec.format_triples')
-                     for t in ts)
-        good = good and ok
+        good = good and is_formatter_result(fi, v)
     rep.add('penman.__main__:process: the printed text is the formatter result', fi.loc(c), 'ok' if good else 'undecided',
             '' if good else f'printed value comes from {[norm(v)[:50] if v is not None else None for v in srcs]}')
     # separator: exactly one empty print on every iteration but the first
